@@ -2,6 +2,7 @@
    the specification assigns to the encoding of g exactly value_of g; consumption,
    fuel monotonicity, and adequacy of the fuel parse1 uses. *)
 From FF Require Import model.Bytes model.Msgp model.Spec model.Abs model.Wf proofs.Bytes_Proofs.
+From FF Require Import proofs.Take_Proofs.
 From Coq Require Import Lia ZifyN ZifyNat ZifyBool.
 Open Scope N_scope.
 
@@ -39,7 +40,7 @@ Proof. apply N.eqb_neq. unfold len. cbn [length]. lia. Qed.
 
 Lemma otake_app s rest : otake (len s) (s ++ rest) = Some (s, rest).
 Proof.
-  unfold otake. rewrite len_app.
+  rewrite !otake_unfold. rewrite len_app.
   destruct (N.leb_spec (len s) (len s + len rest)); [|lia].
   unfold len. rewrite Nnat.Nat2N.id.
   rewrite firstn_app, skipn_app, Nat.sub_diag, firstn_all, skipn_all.
@@ -65,7 +66,7 @@ Proof. intros H. exact (onum_app 8 n rest H). Qed.
 
 Lemma onum1_cons b r : onum 1 (b :: r) = Some (b2n b, r).
 Proof.
-  unfold onum, otake.
+  unfold onum; rewrite !otake_unfold.
   destruct (N.leb_spec 1 (len (b :: r))) as [_|H]; [|unfold len in H; cbn [length] in H; lia].
   change (N.to_nat 1) with 1%nat. cbn [firstn skipn]. unfold unbe. cbn [unbe_acc].
   replace (0 * 256 + b2n b) with (b2n b) by lia. reflexivity.
@@ -468,7 +469,7 @@ Proof. intros [c ->]. exists (b :: c). split; [reflexivity|discriminate]. Qed.
 
 Lemma otake_suffix k bs h t : otake k bs = Some (h, t) -> suffix bs t.
 Proof.
-  unfold otake. destruct (k <=? len bs); [|discriminate]. intros H. inversion H; subst.
+  rewrite !otake_unfold. destruct (k <=? len bs); [|discriminate]. intros H. inversion H; subst.
   exists (firstn (N.to_nat k) bs). now rewrite firstn_skipn.
 Qed.
 
@@ -737,7 +738,7 @@ Qed.
 
 Lemma otake_ext k bs h t x : otake k bs = Some (h, t) -> otake k (bs ++ x) = Some (h, t ++ x).
 Proof.
-  unfold otake. rewrite len_app.
+  rewrite !otake_unfold. rewrite len_app.
   destruct (N.leb_spec k (len bs)) as [Hk|]; [|discriminate].
   intros H. inversion H; subst. clear H.
   destruct (N.leb_spec k (len bs + len x)); [|lia].
